@@ -30,7 +30,7 @@ type taintSetup struct {
 }
 
 func newTaint(t *tape.Tape, tier Tier, res *Result, alpha gen.Alphabet, allowUnknowing bool, prop string) *taintSetup {
-	cfg := gen.Config{Alpha: alpha, Swarm: true, MaxDepth: 6, MaxNodes: 14}
+	cfg := gen.Config{Alpha: alpha, Swarm: true, MaxDepth: 6, MaxNodes: 14, Verbs: true}
 	if tier == Thorough {
 		cfg.MaxDepth, cfg.MaxNodes = 7, 24
 	}
@@ -508,6 +508,21 @@ func (c12) Run(t *tape.Tape, tier Tier) *Result {
 			hay += "\x1e" + k + "=" + v
 		}
 		ts.sim.Logf("report %d", len(hay))
+		// asking a second time gives the same answer (building a report or
+		// reading the details consumes nothing)
+		all2, _ := obs.AllSafeDetails(e)
+		ev2, extras2, _ := obs.Report(e)
+		hay2 := ev2 + "\x1e" + strings.Join(all2, "\x1e")
+		for k, v := range extras2 {
+			hay2 += "\x1e" + k + "=" + v
+		}
+		if len(hay2) != len(hay) {
+			for _, tok := range safe {
+				if strings.Contains(hay, tok.Tok) && !strings.Contains(hay2, tok.Tok) {
+					res.add(Violation{Prop: "C12", Oracle: "safe-token-retained-when-asked-again", Culprit: kindOfToken(tok) + hiddenSuffix(tok), Expected: "token " + tok.Tok + " in the second report or safe details as in the first", Observed: "absent", Where: where})
+				}
+			}
+		}
 		if where == "origin (local)" {
 			for _, tx := range sentinelTexts {
 				if strings.Contains(hay, tx) {
